@@ -399,6 +399,7 @@ func runC08(c *core.Ctx, o Options) {
 	checkPoolGrowOnly(c, "W1")
 	w.checkTimerClosers("W2")
 	w.checkStartAlwaysArms("W3")
+	w.checkAcceptorArms("W3")
 	c.RuleMin = map[string]int{"W1": 8, "W2": 4, "W3": 1, "W4": 5}
 	c.MinObl = 10
 }
@@ -940,4 +941,41 @@ func (w *wiring) checkStartAlwaysArms(rule string) {
 		}
 	}
 	c.Check(bad == "" && n > 0 && len(need) >= 4, rule, "start", "every successful start arms both timers with the current settings", w.start.Pos(), fmt.Sprintf("%d success path(s) pass %d timer/goroutine sites", n, len(need)), bad)
+}
+
+// checkAcceptorArms: on the accepting side the Logon handler itself calls start() on every path that reports the session logged
+// on — not an event subscriber, which an application handler registered earlier for the same event can keep from running (the
+// event pool stops at the first false).
+func (w *wiring) checkAcceptorArms(rule string) {
+	s := w.s
+	c := s.c
+	lf := s.one(true, "Logon")
+	if lf == nil {
+		return
+	}
+	SL := s.m.StateVals["SuccessfulLogged"]
+	n, bad := 0, ""
+	for _, t := range s.tr.Traces(lf, s.m.AllStates) {
+		read, _ := s.entryRead(t)
+		if read != s.m.Set("WaitingLogon") {
+			continue
+		}
+		logged, started := false, false
+		for _, e := range t.Events {
+			if e.Kind == "state" && e.To == SL {
+				logged = true
+			}
+			if e.Kind == "check" && e.Name == "start" {
+				started = true
+			}
+		}
+		if !logged {
+			continue
+		}
+		n++
+		if !started {
+			bad = "the accepting side reports logged on without calling start() on path: " + traceStr(t)
+		}
+	}
+	c.Check(bad == "" && n > 0, rule, "inbound:Logon", "the acceptor's Logon handler arms the timers itself", lf.Pos(), fmt.Sprintf("%d approving path(s) call start()", n), bad)
 }
